@@ -130,7 +130,6 @@ Variables dcap pcap : Z.
 Hypothesis Hstrict : cfg_strict c = true.
 Hypothesis Hb : bytes_ok m.
 Hypothesis Hsm : segs_small m.
-Hypothesis Hdz : forall sid wa, dfar_zero_pad m sid wa = false.
 Hypothesis Hrep : forall sid wa t, spec_resolve false m sid wa = Some t -> list_repr t.
 Let fx := mkFix true true true.
 
@@ -359,7 +358,7 @@ Proof.
 Qed.
 
 (* walk_eq_spec (full statement): for every message, every caps and every fuel: when the
-   segments fit the address space, no landing pad is the deviating one, element counts are
+   segments fit the address space, element counts are
    representable, the depth limit exceeds the fuel and the budget covers the specification's
    traversal cost, walking from any in-bounds pointer word gives exactly the specification's
    tree and consumes exactly the specification's cost. *)
@@ -397,15 +396,11 @@ Qed.
 
 Example walk_eq_spec_hyps_satisfiable :
   bytes_ok zero_msg /\ segs_small zero_msg /\
-  (forall sid wa, dfar_zero_pad zero_msg sid wa = false) /\
   (forall sid wa t, spec_resolve false zero_msg sid wa = Some t -> list_repr t).
 Proof.
   split; [repeat constructor; lia|]. split; [repeat constructor; unfold seg_small, blen, maxSegmentSize; cbn; lia|].
-  split.
-  - intros sid wa. unfold dfar_zero_pad. destruct (seg_at zero_msg sid) as [s|] eqn:Hs; [|reflexivity].
-    apply zero_msg_seg in Hs. subst s. rewrite zero_seg_word. reflexivity.
-  - intros sid wa t H. unfold spec_resolve in H. destruct (seg_at zero_msg sid) as [s|] eqn:Hs; [|discriminate].
+  { intros sid wa t H. unfold spec_resolve in H. destruct (seg_at zero_msg sid) as [s|] eqn:Hs; [|discriminate].
     apply zero_msg_seg in Hs. subst s. destruct (negb _); [discriminate|].
     rewrite zero_seg_word in H. change (ptr_kind 0 =? 2) with false in H. cbv iota in H.
-    unfold spec_near in H. change (0 =? 0) with true in H. cbv iota in H. inversion H. exact Logic.I.
+    unfold spec_near in H. change (0 =? 0) with true in H. cbv iota in H. inversion H. exact Logic.I. }
 Qed.
